@@ -217,6 +217,12 @@ func runC14(args []string) int {
 						map[string]interface{}{"entry": "io.Copy(dyncrc16.New(), reader)", "data_hex": hexs(c.data), "reader_kind": fi})
 				}
 			}
+			// and through io.WriteString (a hasher may implement io.StringWriter)
+			hs := dyncrc16.New()
+			if _, err := io.WriteString(hs, string(c.data)); err != nil || hs.Sum16() != whole {
+				r.specFail("feeder", fmt.Sprintf("io.WriteString of %d bytes into the hasher gives 0x%04x (err %v), a single write gives 0x%04x", len(c.data), hs.Sum16(), err, whole),
+					map[string]interface{}{"entry": "io.WriteString(dyncrc16.New(), s)", "data_hex": hexs(c.data)})
+			}
 			r.hist("fed_through_io_copy")
 		}
 		h2 := dyncrc16.New()
